@@ -97,6 +97,7 @@ def draw_features(ctx, base=None, allow=("subtypes", "constants", "neg", "equali
     feat["nested_cond"] = c.draw(3) == 0  # or / forall inside the conditions of when effects
     feat["join_names"] = c.draw(6) == 0  # object names whose joins collide (x, x_x, x-x, ...)
     feat["nested_numeric"] = c.draw(2) == 0  # fluent-against-constant comparisons inside nested conditions
+    feat["dense_quant"] = c.draw(4) == 0  # several quantified conditions (often shadowing a parameter) per action
     feat["tiny_offsets"] = True  # ... whose constants may differ only beyond the 4th decimal (not where a domain is exported)
     feat["max_objects"] = 3 + c.draw(3) if c.draw(8) else 6 + c.draw(3)
     feat["max_actions"] = 1 + c.draw(3) if c.draw(8) else 4 + c.draw(2)
@@ -284,3 +285,25 @@ def interrupted(ctx, fn):
     ctx.faults["cancellations"] += S.cancels
     ctx.measure("cancellation points (traced line of the interrupted call)", (k, S.cancels))
     return S.cancels > 0
+
+
+def merge_foralls(ctx, d):
+    """model-level edit through the object API: the universal effects of an action that quantify the same variable over
+    the same type are merged into ONE UniversalEffect holding all their conditional effects (the class keeps a set of
+    them; the parser happens to create one per forall).  Same meaning, another shape of the model."""
+    merged = 0
+    for act in d.actions.values():
+        by = {}
+        for ue in list(act.universal_effects):  # (iteration order is the hash seam's: reproducible)
+            by.setdefault((ue.quantified_parameter, ue.quantified_type.name), []).append(ue)
+        for group in by.values():
+            if len(group) < 2:
+                continue
+            keep = group[0]
+            for other in group[1:]:
+                keep.conditional_effects.update(other.conditional_effects)
+                act.universal_effects.discard(other)
+            merged += 1
+    if merged:
+        ctx.probes["model_with_merged_forall_effects"] += 1
+    return merged
